@@ -164,6 +164,10 @@ impl<E: Engine> RateEncoder<E> for DefaultRateEncoder<E> {
         recovery_count: usize,
         shard_bytes: usize,
     ) -> Result<(), Error> {
+        // Validate everything up front so that nothing below can fail
+        // after the inner codec has been taken out of `self`.
+        Self::validate(original_count, recovery_count, shard_bytes)?;
+
         let new_rate_is_high = use_high_rate(original_count, recovery_count)?;
 
         self.0 = match std::mem::take(&mut self.0) {
@@ -308,6 +312,10 @@ impl<E: Engine> RateDecoder<E> for DefaultRateDecoder<E> {
         recovery_count: usize,
         shard_bytes: usize,
     ) -> Result<(), Error> {
+        // Validate everything up front so that nothing below can fail
+        // after the inner codec has been taken out of `self`.
+        Self::validate(original_count, recovery_count, shard_bytes)?;
+
         let new_rate_is_high = use_high_rate(original_count, recovery_count)?;
 
         self.0 = match std::mem::take(&mut self.0) {
